@@ -10,7 +10,9 @@ Import ListNotations.
 Local Open Scope string_scope. Local Open Scope list_scope.
 
 Inductive odeps := ODeps (d : list string) | OErr (e : perr) | OOther.
-Inductive oeval := OEval (ok : bool) (reads : list string) | ONoEval.
+(* OReads: reads observed with a different (universal) inputs object: not compared with the model evaluator, only used
+   for the in-fragment consequence check below (kind realworld) *)
+Inductive oeval := OEval (ok : bool) (reads : list string) | ONoEval | OReads (ok : bool) (reads : list string).
 
 (* [frag] = the harness' claim that the case lies in the fragment of C31_sound_partial (no library, every JS part
    in_fragment); the claim is re-computed here, so the count reported in the evidence is the model's own. *)
@@ -54,7 +56,7 @@ Definition check_deps (lib : stmt) (ps : list part) (d : odeps) : bool :=
 
 Definition check_eval (lib : stmt) (ps : list part) (inp : list (string * ival)) (e : oeval) : bool :=
   match e with
-  | ONoEval => true
+  | ONoEval | OReads _ _ => true
   | OEval ok reads =>
       match eval_parts inp lib ps [] with
       | None => true
@@ -62,15 +64,16 @@ Definition check_eval (lib : stmt) (ps : list part) (inp : list (string * ival))
       end
   end.
 
-Definition case_in_fragment (lib : stmt) (ps : list part) : bool :=
-  match lib with SSkip => forallb (fun p => match p with PJs body => in_fragment body | _ => true end) ps | _ => false end.
+(* the fragment of C31_sound_interpolation_partial (which contains those of C31_sound_partial,
+   C31_sound_functions_partial and C31_paramref_sound) *)
+Definition case_in_fragment (lib : stmt) (ps : list part) : bool := parts_in_fragment lib ps.
 
 (* inside the fragment the theorem's conclusion is also checked on the observations themselves: the analysis did not
    fail and the observed reads of a successful evaluation are observed dependencies *)
 Definition frag_consequence (frag : bool) (d : odeps) (e : oeval) : bool :=
   if frag then
     match d, e with
-    | ODeps o, OEval true reads => incl_b reads o
+    | ODeps o, OEval true reads | ODeps o, OReads true reads => incl_b reads o
     | ODeps _, _ => true
     | _, _ => false
     end
@@ -80,8 +83,7 @@ Definition check_case (c : ccase) : bool :=
   match c with
   | CCase lib ps inp d e frag =>
       check_deps lib ps d && check_eval lib ps inp e && Bool.eqb (case_in_fragment lib ps) frag
-      && (negb (forallb (fun p => match p with PJs _ => true | PText _ => true | PRef _ _ => false end) ps)
-          || frag_consequence frag d e)
+      && frag_consequence frag d e
   end.
 
 (* how many of the evaluations were actually compared (evidence only) *)
